@@ -34,14 +34,14 @@ type C02Scenario struct {
 	// (operands of every numeric kind, floats, strings, nil, dynamic values next
 	// to a rewrite candidate). Only the optimised-versus-unoptimised oracles
 	// apply to it; no reference model is involved.
-	Raw    string `json:"raw,omitempty"`
+	Raw string `json:"raw,omitempty"`
 	// StaleOption (map environments): members of the sample map change type after
 	// expr.Env(sample) was called and before Compile.
 	StaleOption bool `json:"stale_option,omitempty"`
 	// Operator (probes): an arithmetic operator overloaded with OpS (two strings)
 	// or OpI (two ints); the probe has literal operands around it.
 	Operator []string `json:"operator,omitempty"`
-	Source string `json:"source_text,omitempty"`
+	Source   string   `json:"source_text,omitempty"`
 }
 
 func (sc *C02Scenario) src() string {
@@ -257,6 +257,11 @@ func genTypedProbe(r *RNG, d *EnvData) string {
 			"(F64 * 0 + 10000000000000000.0) + 1 + 1", "(F64 * 0 + 1e16) + 1 + 1 + 1", "Any + 1 + 1", "F64 + 1 + 1", "S + \"a\" + \"b\"",
 			"1.5 / 0", "(0.5 + 0.5) / 0", "P ? 1 : 1.5 / 0", "-2.5 / 0 > 0", "F64 / 0",
 			"CP(nil)", "CP(On)", "CP(O)", "[CP(nil), 1]",
+			// operands of named int / string types under the membership rewrites
+			"MI in [1, 2, 3]", "MI in 1..3", "MS in [\"a\", \"b\"]", "MI not in [2]", "MI in [2]", "MS not in [\"a\"]", "MI in 2..2", "MI not in 0..9",
+			// literal arithmetic in a float / int8 parameter position; a literal array compared with a typed slice
+			"Ff(5 % 3 + 1)", "Ff(7 % 4 * 2)", "Ff(9 % 5 - 1)", "C8(200 / 3)", "C8(100 + 100)", "C8(7 * 3)", "C8(300 - 50)",
+			"[1, 2, 3] == Xs", "Xs == [1, 2, 3]", "[\"a\"] != Ss", "Ys == [0, 0]",
 			"[CI(2), CL(2), Ff(2)]", "[CL(3), CI(3)]", "[CN(1), CL(1)]", "CN(2) == nil", "[CS(\"Ab\"), CI(1), CS(\"Ab\")]",
 		})
 	case 10: // a ConstExpr function returning a named integer type through interface{}
@@ -264,6 +269,25 @@ func genTypedProbe(r *RNG, d *EnvData) string {
 	default: // ConstExpr float function with folded arguments under a comparison
 		return fmt.Sprintf("Ff(%d) %s %s", r.Range(0, 4), r.Pick([]string{"==", "<", ">="}), o.src)
 	}
+}
+
+var (
+	ffModuloRe     = regexp.MustCompile(`^Ff\(\d+ % \d+ [-+*] \d+\)$`)
+	c8DivisionRe   = regexp.MustCompile(`^C8\(\d+ / \d+\)$`)
+	literalArrEqRe = regexp.MustCompile(`^(\[[^\[\]]*\] [!=]= (Xs|Ys|Ss)|(Xs|Ys|Ss) [!=]= \[[^\[\]]*\])$`)
+)
+
+// knownProbeShape names the three probe shapes listed in known_findings.json.
+func knownProbeShape(src string) string {
+	switch {
+	case ffModuloRe.MatchString(src):
+		return "modulo-then-arithmetic-in-float-argument"
+	case c8DivisionRe.MatchString(src):
+		return "literal-division-in-int8-argument"
+	case literalArrEqRe.MatchString(src):
+		return "literal-array-compared-with-typed-slice"
+	}
+	return ""
 }
 
 var literalRangeRe = regexp.MustCompile(`(-?\d+)\)?\s*\.\.\s*\(?(-?\d+)`)
@@ -440,6 +464,11 @@ func (c02Engine) Run(sci interface{}, ctx *RunCtx) *Finding {
 			if len(on.world.Journal) == 0 && len(sc.Marks) > 0 && plain.co.Err == nil {
 				kind = "constexpr-rejected-without-call"
 			}
+			if sc.Tree == nil {
+				if shape := knownProbeShape(pr.Src); shape != "" {
+					kind += "/" + shape
+				}
+			}
 			return &Finding{Class: "C02/" + kind, Detail: fmt.Sprintf("the optimised compilation was rejected (%s) although no compile-time call failed (compile-phase journal %v, faults fired %v) and the source has no constant division by zero; the unoptimised compiler accepts it\n%s", firstLine(on.co.ErrText()), journalStrings(on.world.Journal), on.world.Fired, head())}
 		}
 		ctx.Nontrivial(fmt.Sprintf("%s|%s|%v|%v|%v", pr.Src, sc.Env, sc.Marks, sc.Poison, sc.Stateful))
@@ -504,6 +533,13 @@ func (c02Engine) Run(sci interface{}, ctx *RunCtx) *Finding {
 				}
 				if p.label == plain.label {
 					kind += "/no-marks"
+				}
+				if sc.Tree == nil {
+					// probes whose shape is a listed finding get that shape in the class key
+					// (the shapes are narrow: function, operator and operand kinds are fixed)
+					if shape := knownProbeShape(pr.Src); shape != "" {
+						kind += "/" + shape
+					}
 				}
 				if !o.Failed() && oOff.Failed() && hasHugeLiteralRange(pr.Src) {
 					// the optimiser builds a literal range at compile time and the run is
